@@ -93,8 +93,20 @@ fn run<T: Scalar>(op: Op, rng: &mut Rng, out: &mut TrialOut, cfg_trial: u64) {
         a2.push(if i < none_a { None } else { Some(wa) });
         b2.push(if i < none_b { None } else { Some(wb) });
     }
-    let raw1: Vec<f64> = (0..len).map(|_| rng.range(-1000, 1000) as f64 / 8.0).collect();
-    let raw2: Vec<f64> = (0..len).map(|_| rng.range(-1000, 1000) as f64 / 8.0).collect();
+    // unrelated noise with runs of exact repeats (a combinator must not key anything on the raw input)
+    let mut mk_raw = |rng: &mut Rng| -> Vec<f64> {
+        let mut v: Vec<f64> = Vec::with_capacity(len);
+        for i in 0..len {
+            if i > 0 && rng.chance(1, 3) {
+                v.push(v[i - 1]);
+            } else {
+                v.push(rng.range(-1000, 1000) as f64 / 8.0);
+            }
+        }
+        v
+    };
+    let raw1 = mk_raw(rng);
+    let raw2 = mk_raw(rng);
     let name = op_name(op);
     let cell = format!("{}/{}", name, T::NAME);
     out.key(mix(hash_str(&cell), cfg_trial));
